@@ -26,3 +26,32 @@ package keystore
 //@ func (*ManagedAddress).RedeemScript
 //@   trusted
 //@   requires mAddr != nil && chainParams != nil
+
+// ---- C12: the gap rule on issue.  After issuing numAddresses more addresses the last new index is
+// nextIndex+numAddresses-1; unless that index is below the gap limit, one of the addresses at the gap-limit many
+// indexes before the first new one ... i.e. in [nextIndex+numAddresses-1-gapLimit, nextIndex) must have chain history
+// (scriptUsed = what the caller's checkfunc answers for a script hash).
+// assumed of persisted data: the stored next child number never exceeds the per-account maximum (it is only ever
+// written by updateChildNum with a value that passed the guard at the top of nextAddresses)
+//@ func getChildNum
+//@   trusted
+//@   requires b != nil
+//@   ensures result1 == nil ==> result0 <= MaxAddressesPerAccount
+//@ func newManagedAddressFromExtKey
+//@   trusted
+//@   requires extKey != nil && net != nil
+//@ define usedAt(a, i) = (has(a.index, i) && has(a.addrs, a.index[i]) && a.addrs[a.index[i]] != nil && ghostb("scriptUsed", strOf(a.addrs[a.index[i]].scriptHash)))
+//@ define gapWitness(a, lo, hi) = (exists qi_ uint32 :: mathint(lo) <= mathint(qi_) && qi_ < hi && usedAt(a, qi_))
+//@ func (*AddrManager).nextAddresses
+//@   props C12
+//@   nopanic off
+//@   requires a != nil && dbTransaction != nil && a.acctInfo != nil && net != nil
+//@   requires a.acctInfo.acctKeyPriv != nil ==> a.acctInfo.acctKeyPriv.VerifWF()
+//@   requires a.acctInfo.acctKeyPriv == nil ==> a.acctInfo.acctKeyPub.VerifWF()
+//@   modifies *
+//@   callback checkfunc observes scriptUsed
+//@   loop#2 invariant branchKey.VerifWF()
+//@   loop#3 invariant branchKey.VerifWF()
+//@   loop#1 invariant branchKey.VerifWF() && startIndex <= i && mathint(startIndex) == mathint(nextIndex) + mathint(numAddresses) - mathint(addressGapLimit) - 1
+//@   loop#1 invariant pass ==> gapWitness(a, mathint(nextIndex) + mathint(numAddresses) - mathint(addressGapLimit) - 1, nextIndex)
+//@   at "addressInfo := make([]*unlockDeriveInfo, 0, numAddresses)" assert[C12] nextIndex != 0 && mathint(nextIndex) + mathint(numAddresses) > mathint(addressGapLimit) ==> gapWitness(a, mathint(nextIndex) + mathint(numAddresses) - mathint(addressGapLimit) - 1, nextIndex)
